@@ -85,4 +85,84 @@ def WF (a : ArrV) : Prop := a.2.length = prod a.1
 theorem tabulate_wf (r : List Nat) (f : List Nat → Nat) : WF (tabulate r f) := by
   simp [WF, tabulate, allIdx_length]
 
+
+/-- the target with its unknown slots filled by `q` -/
+def fillUnknown (q : Nat) (dst : List Int) : List Nat := dst.map (fun d => if d < 0 then q else d.toNat)
+
+theorem prod_fill_noneg (q : Nat) : ∀ (dst : List Int), (dst.filter (· < 0)).length = 0 →
+    prod (fillUnknown q dst) = prod ((dst.filter (· ≥ 0)).map Int.toNat)
+  | [], _ => rfl
+  | d :: t, h => by
+    by_cases hd : d < 0
+    · simp [List.filter, hd] at h
+    · have hd' : d ≥ 0 := by omega
+      have ht : (t.filter (· < 0)).length = 0 := by simpa [List.filter, hd] using h
+      have := prod_fill_noneg q t ht
+      simp only [fillUnknown, List.map_cons, prod] at this ⊢
+      simp [hd, hd', List.filter, prod, this]
+
+theorem prod_fill_one (q : Nat) : ∀ (dst : List Int), (dst.filter (· < 0)).length = 1 →
+    prod (fillUnknown q dst) = q * prod ((dst.filter (· ≥ 0)).map Int.toNat)
+  | [], h => by simp at h
+  | d :: t, h => by
+    by_cases hd : d < 0
+    · have hd' : ¬ d ≥ 0 := by omega
+      have ht : (t.filter (· < 0)).length = 0 := by simpa [List.filter, hd] using h
+      have := prod_fill_noneg q t ht
+      simp only [fillUnknown, List.map_cons, prod] at this ⊢
+      simp [hd, hd', List.filter, this]
+    · have hd' : d ≥ 0 := by omega
+      have ht : (t.filter (· < 0)).length = 1 := by simpa [List.filter, hd] using h
+      have := prod_fill_one q t ht
+      simp only [fillUnknown, List.map_cons, prod] at this ⊢
+      simp only [hd, if_false, this, List.filter, hd', decide_true, List.map_cons, prod]
+      rw [Nat.mul_left_comm]
+
+/-- an accepted reshape keeps the element count -/
+theorem reshape_prod (src : List Nat) (dst : List Int) (r : List Nat) (h : reshape src dst = some r) :
+    prod r = prod src := by
+  unfold reshape at h
+  simp only at h
+  split at h
+  · cases h
+  · split at h
+    · rename_i h0
+      split at h
+      · rename_i hk
+        cases h
+        have := prod_fill_noneg 0 dst h0
+        have e : dst.map Int.toNat = fillUnknown 0 dst := by
+          unfold fillUnknown
+          apply List.map_congr_left
+          intro d hd
+          have : ¬ d < 0 := by
+            intro hn
+            have : d ∈ dst.filter (· < 0) := List.mem_filter.mpr ⟨hd, by simpa using hn⟩
+            rw [List.length_eq_zero_iff.mp h0] at this
+            cases this
+          simp [this]
+        rw [e, this, hk]
+      · cases h
+    · rename_i h1
+      split at h
+      · cases h
+      · split at h
+        · rename_i hk hm
+          cases h
+          have := prod_fill_one (prod src / prod ((dst.filter (· ≥ 0)).map Int.toNat)) dst h1
+          unfold fillUnknown at this
+          rw [this]
+          exact Nat.div_mul_cancel (Nat.dvd_of_mod_eq_zero hm)
+        · cases h
+    · cases h
+
+theorem mapM_none_of_mem {α β : Type} (f : α → Option β) : ∀ (l : List α) (a : α), a ∈ l → f a = none → l.mapM f = none
+  | [], _, h, _ => by cases h
+  | x :: t, a, h, hf => by
+    rcases List.mem_cons.mp h with rfl | h'
+    · simp [List.mapM_cons, hf]
+    · have := mapM_none_of_mem f t a h' hf
+      simp [List.mapM_cons, this]
+
+
 end NmVerif.KindRefs
